@@ -252,8 +252,12 @@ def timed_round(srv, rng, res, rn):
             continue
         elif kind in ("overwrite", "persist", "recreate"):
             if kind == "overwrite":
-                how = rng.choice(["SET", "GETSET", "MSET"]) if typ == "string" else rng.choice(["SET", "MSET"])
-                argv = {"SET": [b"SET", key, b"over"], "GETSET": [b"GETSET", key, b"over"], "MSET": [b"MSET", key, b"over"]}[how]
+                how = rng.choice(["SET", "GETSET", "MSET", "SET-XX", "SET-via-script", "SET-XX-via-script"]) if typ == "string" else \
+                    rng.choice(["SET", "MSET", "SET-XX", "SET-via-script"])
+                argv = {"SET": [b"SET", key, b"over"], "GETSET": [b"GETSET", key, b"over"], "MSET": [b"MSET", key, b"over"],
+                        "SET-XX": [b"SET", key, b"over", b"XX"],
+                        "SET-via-script": [b"EVAL", b"return redis.call('SET', KEYS[1], 'over')", b"1", key],
+                        "SET-XX-via-script": [b"EVAL", b"return redis.call('SET', KEYS[1], 'over', 'XX')", b"1", key]}[how]
                 tc.cmd(*argv)
                 info["how"] = how
                 info["expect_after"] = ("string", b"over")
@@ -472,9 +476,97 @@ def index_scenarios(srv, rng, res):
     c.close()
 
 
+def across_restart(binary, res, rng):
+    """Deadlines do not move when the dataset travels through a dump: keys with TTLs in a
+    database that is written late in a save that takes a while (120k filler keys first),
+    SAVE or BGSAVE, SIGKILL, restart; every deadline must be where it was (never early,
+    never late: PTTL within the two-clock bracket, 3 ms + measured scheduling noise), and
+    keys whose deadline passed while the server was down must be absent."""
+    from .c09 import Jitter
+    srv = server.Server(binary, config_text="save \"\"\n").start()
+    try:
+        c = srv.client(timeout=120)
+        for i in range(0, 120000, 2000):
+            c.cmd("MSET", *[x for j in range(i, i + 2000) for x in (b"fill:%d" % j, b"v")])
+        c.cmd("SELECT", "9")
+        keys = {}
+        for i in range(40):
+            typ = ["string", "list", "set", "hash", "zset", "stream"][i % 6]
+            k = b"ttl:%d" % i
+            {"string": lambda: c.cmd("SET", k, "v"), "list": lambda: c.cmd("RPUSH", k, "a"), "set": lambda: c.cmd("SADD", k, "a"),
+             "hash": lambda: c.cmd("HSET", k, "f", "v"), "zset": lambda: c.cmd("ZADD", k, "1", "a"), "stream": lambda: c.cmd("XADD", k, "1-1", "f", "v")}[typ]()
+            c.cmd("PEXPIRE", k, rng.choice([4000, 9000, 60000, 3600000]))
+        for i in range(6):
+            c.cmd("SET", b"dies:%d" % i, "v", "PX", "400")
+        for i in range(40):
+            k = b"ttl:%d" % i
+            m0, w0 = time.monotonic(), time.time()
+            p = c.cmd("PTTL", k)
+            m1, w1 = time.monotonic(), time.time()
+            keys[k] = (p, m0, m1, w0, w1)
+        mode = rng.choice(["SAVE", "BGSAVE"])
+        t_s = time.monotonic()
+        with Jitter() as js:
+            if mode == "SAVE":
+                r = c.cmd("SAVE", timeout=120)
+            else:
+                r = c.cmd("BGSAVE")
+                t_end = time.monotonic() + 120
+                while time.monotonic() < t_end:
+                    st = c.cmd("VERIF", "RDB", "SAVES")
+                    if st[0] >= 1 and st[0] == st[1] and c.cmd("VERIF", "RDB", "INPROGRESS") == 0:
+                        break
+                    time.sleep(0.005)
+        save_s = time.monotonic() - t_s
+        if isinstance(r, Err):
+            res.inconclusive.append("across-restart: %s refused: %r" % (mode, r))
+            return
+        srv.kill()
+        time.sleep(max(0.0, 0.6 - (time.monotonic() - t_s)))
+        with Jitter() as jl:
+            srv.start()
+            c = srv.client(timeout=120)
+            c.cmd("SELECT", "9")
+        noise = 1000.0 * (js.max + jl.max)
+        res.count("across_restart_save_ms", int(save_s * 1000))
+        res.cell("across-restart", mode, "save>50ms" if save_s > 0.05 else "save<=50ms")
+        for i in range(6):
+            res.evaluations += 1
+            if c.cmd("EXISTS", b"dies:%d" % i) != 0:
+                res.violation("late/after-restart", "a key with a 400 ms TTL is present after a >= 600 ms downtime (%s, restart)" % mode)
+                break
+        if noise > 50:
+            res.count("across_restart_not_judged_machine_too_noisy")
+            return
+        tol = 3 + 2 * noise
+        for k, (p1, a0, a1, wa0, wa1) in keys.items():
+            b0, wb0 = time.monotonic(), time.time()
+            p2 = c.cmd("PTTL", k)
+            b1, wb1 = time.monotonic(), time.time()
+            res.evaluations += 1
+            if not isinstance(p2, int) or p2 < 0:
+                res.violation("ttl-lost/after-restart", "key %s had PTTL %r before %s + restart, afterwards PTTL -> %r" % (resp.show(k), p1, mode, p2))
+                break
+            lo = p1 - max(b1 - a0, wb1 - wa0) * 1000 - tol
+            hi = p1 - min(b0 - a1, wb0 - wa1) * 1000 + tol
+            if not (lo <= p2 <= hi):
+                res.violation("%s/after-restart" % ("early" if p2 < lo else "late"),
+                              "key %s (db 9, written late in a %s that took %.0f ms): PTTL %d before, %d after the restart; its deadline moved by %+.0f ms "
+                              "(allowed +-%.1f ms: clock granularity + 2 x %.2f ms scheduling noise)" % (
+                                  resp.show(k), mode, save_s * 1000, p1, p2, p2 - (lo + hi) / 2, (hi - lo) / 2, noise))
+                break
+    finally:
+        srv.cleanup()
+
+
 def worker(wseed, binary, budget_s, idx):
     rng = util.rng_for(wseed, "C02")
     res = Result()
+    if idx == 5:
+        try:
+            across_restart(binary, res, rng)
+        except (Closed, Timeout, RuntimeError) as e:
+            res.inconclusive.append("across-restart scenario: %r" % (e,))
     srv = server.Server(binary).start()
     try:
         t_end = time.time() + budget_s
@@ -531,7 +623,8 @@ def run(tier):
                        "keep the TTL, SET/GETSET/MSET/PERSIST/emptied-and-recreated remove it (key must outlive the old deadline by two "
                        "passes), extension, shortening, RENAME carries it; B: sweeper parked between collect and delete (sync point) while "
                        "a client re-creates / renames onto / appends to the collected keys; C: expiry-index dump, disagreements followed "
-                       "to the client boundary; thorough: 90 s expire/re-create/rename workload against a ThreadSanitizer build (report blocks "
+                       "to the client boundary; D: 40 keys of all types with TTLs in a late database behind 120k filler keys, SAVE or BGSAVE, "
+                       "kill, restart: deadlines unmoved within the two-clock bracket, keys that died during the downtime absent; thorough: 90 s expire/re-create/rename workload against a ThreadSanitizer build (report blocks "
                        "counted from the child's log); cell = (phase, family, command, type)" % len(AFTER), t0,
                        extra_cov={"decisive_probes": dec},
                        assumptions=["client and server share CLOCK_MONOTONIC; probes whose bracket straddles the deadline interval are don't-care",
